@@ -21,6 +21,13 @@ def run(tier, seed, ev):
         "behind or taken away when all calls have returned"],
         Ns_thorough=(2,))
     with mirrun.mir_executor(PROP + "s") as (ex, scr, mir_s):
+        import mprop
+        import obl_api as A
+        rc3 = mprop.run_m(PROP, tier, seed, ev, ex, [
+            ("a transaction written to and dropped without finish, then a put: nothing of the abandoned one reaches it", "abandon_then_put",
+             lambda ex: A.ob_tx_write(ex, 1 if tier == "quick" else 2, abandon_first=True))],
+            [("src/lib.rs", "replay_content.rs", "verif_replay_content")], "replay_content_identity")
+        rc1 = tcommon.best(rc1, rc3)
         plans = [(("put", "put"), 1, 2, dict(faults=1))]
         if tier == "thorough":
             plans.append((("put", "remove"), 1, 2, dict(faults=1)))    # an aborted commit against a concurrent remove of the same key
